@@ -44,12 +44,15 @@ def one(rng):
         glue = [rng.choice([record(GETVALUES, 0, nv_all([(b"FCGI_MAX_CONNS", b"")]), rng.choice([0, 3])), record(rng.choice([12, 99]), 0, [1, 2], 0)])]
     recs = allrecs[:pos] + glue + [ab] + (allrecs[pos:] if foreign or rng.random() < 0.3 else [])
     segs = [(0, 0, flat(recs))]
-    how = rng.choice(["all", "fill", "none", "past-eof", "own-status", "propagate", "propagate"])
+    how = rng.choice(["all", "fill", "none", "past-eof", "own-status", "own-success", "propagate", "propagate"])
     if how == "all":
         h = [("readall",), ("ret", 0, 5)]
         h = [("readall",), ("fail", 2)] if rng.random() < 0.6 else h
     elif how == "fill":
         h = [("fill", 10 ** 6), ("fill", 10 ** 6), ("fill", 10 ** 6), ("fail", 2)]
+    elif how == "own-success":
+        # the handler sees the abort (the error is swallowed) and deliberately reports SUCCESS: its status is its own choice
+        h = rng.choice([[("readall",)], [("read", 64)] * 4, [("fill", 10 ** 6)] * 3]) + [("ret", 0, 0)]
     elif how == "none":
         h = [("ret", 0, rng.choice([0, 9]))]
     elif how == "past-eof":
@@ -140,7 +143,7 @@ def nontrivial(line, tags):
 
 
 def min_classes(tier):
-    return {"params": 150, "stream": 300, "foreign": 150, "follow1": 150, "follow2": 150, "past-eof": 100, "own-status": 100, "propagate": 150, "huge-abort": 6, "sync-handoff": 10, "params-pipelined": 30, "query-before-abort": 200}
+    return {"params": 150, "stream": 300, "foreign": 150, "follow1": 150, "follow2": 150, "past-eof": 100, "own-status": 100, "propagate": 150, "huge-abort": 6, "sync-handoff": 10, "params-pipelined": 30, "query-before-abort": 200, "own-success": 100}
 
 
 def oracle(line, impl_line):
